@@ -21,6 +21,15 @@ use std::panic::{catch_unwind, AssertUnwindSafe};
 
 const HARD: u32 = 1 << 31;
 
+static QUIET: std::sync::atomic::AtomicBool = std::sync::atomic::AtomicBool::new(false);
+/// catch_unwind of the real code without the panic message on stderr (harness bugs still print)
+fn quiet<R>(f: AssertUnwindSafe<impl FnOnce() -> R>) -> std::thread::Result<R> {
+    QUIET.store(true, std::sync::atomic::Ordering::SeqCst);
+    let r = catch_unwind(f);
+    QUIET.store(false, std::sync::atomic::Ordering::SeqCst);
+    r
+}
+
 #[derive(Clone)]
 struct Case {
     kind: String,
@@ -256,13 +265,13 @@ fn run_case(c: &Case, drv: &mut Driver, t: &mut Tally, log: &mut impl Write) {
     let non_hardened = c.path.iter().all(|&i| i & HARD == 0);
     let is_id = c.root == ProjectivePoint::IDENTITY;
     // ---- implementation
-    let res = catch_unwind(AssertUnwindSafe(|| derive_xpub(prefix_of(&c.prefix), &c.root, c.cc, mk_path(c))));
+    let res = quiet(AssertUnwindSafe(|| derive_xpub(prefix_of(&c.prefix), &c.root, c.cc, mk_path(c))));
     let (impl_s, impl_x): (String, Option<XPubKey>) = match res {
         Err(_) => ("panic".into(), None),
         Ok(Err(e)) => (format!("err {:x}", err_code(&e)), None),
         Ok(Ok(x)) => {
-            let h = str_out(catch_unwind(AssertUnwindSafe(|| x.to_string(false))));
-            let b = str_out(catch_unwind(AssertUnwindSafe(|| x.to_string(true))));
+            let h = str_out(quiet(AssertUnwindSafe(|| x.to_string(false))));
+            let b = str_out(quiet(AssertUnwindSafe(|| x.to_string(true))));
             (format!("val {:x} {:x} {} {:x} {} {} {} {}", u32::from(x.prefix), x.depth, hx(&x.parent_fingerprint), x.child_number,
                 hx(&x.chain_code), point_hex(&x.pubkey), h, b), Some(x))
         }
@@ -302,7 +311,7 @@ fn run_case(c: &Case, drv: &mut Driver, t: &mut Tally, log: &mut impl Write) {
     let mut cc = c.cc;
     let mut step_fail: Option<String> = None;
     for (pos, &i) in c.path.iter().enumerate() {
-        let r = catch_unwind(AssertUnwindSafe(|| derive_child_pubkey(&cur, cc, &ChildIndex::from_bits(i))));
+        let r = quiet(AssertUnwindSafe(|| derive_child_pubkey(&cur, cc, &ChildIndex::from_bits(i))));
         match r {
             Ok(Ok((o, child, c2))) => {
                 // additivity, with k256 only
@@ -375,7 +384,7 @@ fn run_unit(seed: u64, thorough: bool, drv: &mut Driver, t: &mut Tally, log: &mu
         let mut cc = [0u8; 32];
         r.fill_bytes(&mut cc);
         let i = match j % 5 { 4 => rand_index(&mut r, j) | HARD, _ => rand_index(&mut r, j) };
-        let res = catch_unwind(AssertUnwindSafe(|| derive_child_pubkey(&parent, cc, &ChildIndex::from_bits(i))));
+        let res = quiet(AssertUnwindSafe(|| derive_child_pubkey(&parent, cc, &ChildIndex::from_bits(i))));
         let impl_s = match &res {
             Err(_) => "panic".to_string(),
             Ok(Err(e)) => format!("err {:x}", err_code(e)),
@@ -393,7 +402,7 @@ fn run_unit(seed: u64, thorough: bool, drv: &mut Driver, t: &mut Tally, log: &mu
         if parent != ProjectivePoint::IDENTITY {
             let s = drv.run("c12.ckdpub", &[point_hex(&parent), hx(&cc), format!("{:x}", i)]);
             t.evals += 1;
-            let fp = catch_unwind(AssertUnwindSafe(|| get_finger_print(&parent)));
+            let fp = quiet(AssertUnwindSafe(|| get_finger_print(&parent)));
             let spec_ok = match (&s, &res, &fp) {
                 (Ok(v), Ok(Ok((_, k, c2))), Ok(f)) => v.len() == 4 && v[0] == "some" && v[1] == point_hex(k) && v[2] == hx(c2) && v[3] == hx(f),
                 (Ok(v), Ok(Err(_)), _) => v[0] == "none",
@@ -405,7 +414,7 @@ fn run_unit(seed: u64, thorough: bool, drv: &mut Driver, t: &mut Tally, log: &mu
             if let Ok(f) = &fp { if *f != ref_fp(&parent) { t.oracle.push(format!("get_finger_print({}) differs from HASH160 prefix", point_hex(&parent))); } }
         }
         // get_finger_print: value or panic
-        let fp = catch_unwind(AssertUnwindSafe(|| get_finger_print(&parent)));
+        let fp = quiet(AssertUnwindSafe(|| get_finger_print(&parent)));
         let impl_fp = match &fp { Ok(f) => format!("val:{}", hx(f)), Err(_) => "panic".into() };
         let mfp = drv.run("c12.fp", &[point_hex(&parent)]);
         t.evals += 1;
@@ -416,8 +425,8 @@ fn run_unit(seed: u64, thorough: bool, drv: &mut Driver, t: &mut Tally, log: &mu
         // to_string of a hand-made key (incl. the identity key: the 78-byte expect)
         let x = XPubKey { prefix: prefix_of(&prefix_tag(&mut r, j)), parent_fingerprint: r.gen(), child_number: r.next_u32(),
                           pubkey: parent, chain_code: cc, depth: (r.next_u32() & 0xff) as u8 };
-        let h = str_out(catch_unwind(AssertUnwindSafe(|| x.to_string(false))));
-        let b = str_out(catch_unwind(AssertUnwindSafe(|| x.to_string(true))));
+        let h = str_out(quiet(AssertUnwindSafe(|| x.to_string(false))));
+        let b = str_out(quiet(AssertUnwindSafe(|| x.to_string(true))));
         let ptag = format!("c{:x}", u32::from(x.prefix));
         let ms = drv.run("c12.tostring", &[ptag, format!("{:x}", x.depth), hx(&x.parent_fingerprint), format!("{:x}", x.child_number), hx(&cc), point_hex(&parent)]);
         t.evals += 1;
@@ -480,17 +489,17 @@ fn test_vectors(t: &mut Tally, kinds: &mut std::collections::BTreeMap<String, u6
         let (cv, cd, cfp, cnum, ccc, ck) = decode_xpub(child);
         assert!(cd == pd + 1 && cnum == idx);
         let what = format!("BIP32 test vector {} -> /{}", par, idx);
-        match catch_unwind(AssertUnwindSafe(|| derive_child_pubkey(&pk, pcc, &ChildIndex::from_bits(idx)))) {
+        match quiet(AssertUnwindSafe(|| derive_child_pubkey(&pk, pcc, &ChildIndex::from_bits(idx)))) {
             Ok(Ok((o, k, c2))) => {
                 if k != ck || c2 != ccc || k != pk + ProjectivePoint::GENERATOR * o {
                     t.oracle.push(format!("{what}: derive_child_pubkey gives key {} chain code {}", point_hex(&k), hx(&c2)));
                 }
-                match catch_unwind(AssertUnwindSafe(|| get_finger_print(&pk))) {
+                match quiet(AssertUnwindSafe(|| get_finger_print(&pk))) {
                     Ok(f) if f == cfp => {}
                     other => t.oracle.push(format!("{what}: get_finger_print(parent) = {:?}, vector says {}", other.ok(), hx(&cfp))),
                 }
                 let x = XPubKey { prefix: Prefix::from(cv.to_be_bytes()), parent_fingerprint: cfp, child_number: cnum, pubkey: k, chain_code: c2, depth: cd };
-                match catch_unwind(AssertUnwindSafe(|| x.to_string(true))) {
+                match quiet(AssertUnwindSafe(|| x.to_string(true))) {
                     Ok(s) if s == child => {}
                     other => t.oracle.push(format!("{what}: to_string(true) = {:?}", other.ok())),
                 }
@@ -499,7 +508,7 @@ fn test_vectors(t: &mut Tally, kinds: &mut std::collections::BTreeMap<String, u6
         }
         // derive_xpub from the parent as root must produce the same key / chain code / fingerprint / child number
         let (_, _, _, _, pcc, pk) = decode_xpub(par);
-        match catch_unwind(AssertUnwindSafe(|| derive_xpub(Prefix::XPub, &pk, pcc, DerivationPath::new(vec![ChildIndex::from_bits(idx)])))) {
+        match quiet(AssertUnwindSafe(|| derive_xpub(Prefix::XPub, &pk, pcc, DerivationPath::new(vec![ChildIndex::from_bits(idx)])))) {
             Ok(Ok(x)) if x.pubkey == ck && x.chain_code == ccc && x.parent_fingerprint == cfp && x.child_number == idx && x.depth == 1 => {}
             _ => t.oracle.push(format!("{what}: derive_xpub with the parent as root disagrees with the vector")),
         }
@@ -528,8 +537,7 @@ pub fn run(kv: &Args) -> i32 {
     let mut log = std::io::BufWriter::new(std::fs::File::create(format!("{out}/cases.txt")).unwrap());
     let mut t = Tally { evals: 0, nontrivial: 0, disagree: vec![], oracle: vec![], samples: vec![] };
     let mut kinds: std::collections::BTreeMap<String, u64> = Default::default();
-    let hook = std::panic::take_hook();
-    std::panic::set_hook(Box::new(|_| {}));
+    std::panic::set_hook(Box::new(move |i| { if !QUIET.load(std::sync::atomic::Ordering::SeqCst) { eprintln!("harness panic: {i}"); } }));
     let cases = match kv.get("replay") {
         Some(rp) => vec![parse_replay(&std::fs::read_to_string(rp).expect("replay file")).expect("replay: prefix= root= cc= path=")],
         None => gen_cases(seed, thorough),
@@ -544,7 +552,6 @@ pub fn run(kv: &Args) -> i32 {
         run_unit(seed, thorough, &mut drv, &mut t, &mut log, &mut kinds);
         test_vectors(&mut t, &mut kinds);
     }
-    std::panic::set_hook(hook);
     let mut f = std::fs::File::create(format!("{out}/result.txt")).unwrap();
     writeln!(f, "evaluations {}", t.evals).unwrap();
     writeln!(f, "mutations {}", t.nontrivial).unwrap();
